@@ -1,19 +1,52 @@
-// C06 harness: run a list of jobs (database, input text) through the C API on fresh instances, sequentially or from
-// N threads, and print one canonical result line per job. No randomness here: the job list and the assignment of jobs to
-// threads come from the caller.
-//   ph_threads <nthreads> <coexist> <churn>      stdin: lines "J <db-path-hex> <input-hex>"
-//   nthreads = 1: sequential reference; coexist = number of idle instances created first (shifts the ids);
-//   churn = number of extra create/destroy pairs each thread performs between its jobs.
-// Output: "R <job> <id> <rc> <h-output> <h-selected> <h-error> <h-warning> <h-dump> <h-components> <nrows>" per job,
-//         "IDS <all ids handed out, in per-thread order>", optional "T <job> <channel> <hex text>" when PH_TEXT=1.
+// C06 harness: run a list of jobs (database, input text) through the C API on fresh instances, sequentially, from N threads,
+// or nested (one instance's run interrupted by another instance's complete life on the SAME thread), and print one canonical
+// result line per job. No randomness here: the job list and the assignment of jobs to threads come from the caller.
+//   ph_threads <nthreads> <coexist> <churn> [hold]   stdin: lines "J <db-path-hex> <input-hex> [flags]"
+//   nthreads >= 1: job k runs on thread k % nthreads (1 = sequential reference);
+//   nthreads == 0: NESTED mode: jobs come in pairs (2i, 2i+1); job 2i runs with a BASIC callback that, on its <hold>-th
+//                  invocation (default 2), runs job 2i+1 from creation to destruction on the same thread, then returns;
+//   coexist = number of idle instances created first (shifts the ids);
+//   churn = number of extra create/destroy pairs each thread performs between its jobs;
+//   hold (nthreads >= 1) = number of finished instances each thread keeps alive (destroyed late: overlapping lifetimes).
+//   flags: "defaults" = keep the id-derived default file names, switch every file sink on (cwd must be a scratch directory),
+//          report the names ("F" line) and hash the files written;  "loadonly" = only LoadDatabase;
+//          "dbstring" = the job's database field is hex TEXT loaded with LoadDatabaseString.
+// Every job registers a BASIC callback (returns x1 + 2*x2; CALLBACK(...) in an input is therefore deterministic).
+// Output: "R <job> <id> <rc> <h-output> <h-selected> <h-error> <h-warning> <h-dump> <h-components> <nrows> <unbalanced-unlocks>"
+//         "F <job> <id> <out> <err> <log> <dump> <sel:n=name,...> <files: name=hash,...>"   (flag defaults)
+//         "IDS <all ids handed out, in per-thread order>", "LOCKBAL <unlocks of qsort_lock without lock> <same for map_lock>",
+//         optional "T <job> <channel> <hex text>" when PH_TEXT=1.
+// Lock-balance monitor (link with -Wl,--wrap=pthread_mutex_lock -Wl,--wrap=pthread_mutex_unlock -DLOCKMON): counts, per
+// thread, every pthread_mutex_unlock of qsort_lock / map_lock that the same thread did not precede by a lock.
 #include "hx.hpp"
 #include "IPhreeqc.h"
 #include <thread>
 #include <mutex>
 #include <atomic>
+#include <fstream>
+#include <algorithm>
+#include <map>
+#include <pthread.h>
+#include <dirent.h>
 
-struct Job { std::string db, input; };
-struct Res { int id=-1, rc=-1, rows=0; std::string out, sel, err, warn, dump, comp; };
+extern pthread_mutex_t qsort_lock, map_lock;
+static std::atomic<int> unbal_q(0), unbal_m(0);
+static thread_local int bal_q = 0, bal_m = 0, my_unbal = 0;
+#ifdef LOCKMON
+extern "C" int __real_pthread_mutex_lock(pthread_mutex_t*);
+extern "C" int __real_pthread_mutex_unlock(pthread_mutex_t*);
+extern "C" int __wrap_pthread_mutex_lock(pthread_mutex_t* m){
+  int r = __real_pthread_mutex_lock(m);
+  if(m==&qsort_lock) bal_q++; else if(m==&map_lock) bal_m++;
+  return r; }
+extern "C" int __wrap_pthread_mutex_unlock(pthread_mutex_t* m){
+  if(m==&qsort_lock){ if(bal_q<=0){ unbal_q++; my_unbal++; } else bal_q--; }
+  else if(m==&map_lock){ if(bal_m<=0){ unbal_m++; my_unbal++; } else bal_m--; }
+  return __real_pthread_mutex_unlock(m); }
+#endif
+
+struct Job { std::string db, input, flags; bool has(const char* f) const { return flags.find(f)!=std::string::npos; } };
+struct Res { int id=-1, rc=-1, rows=0, unbal=0; std::string out, sel, err, warn, dump, comp, names; };
 
 static uint64_t fnv(const std::string& s){ uint64_t h=1469598103934665603ULL; for(unsigned char c: s){ h^=c; h*=1099511628211ULL; } return h; }
 static std::string h16(uint64_t u){ char b[17]; snprintf(b,17,"%016llx",(unsigned long long)u); return b; }
@@ -26,26 +59,45 @@ static std::string mask(const char* t){
     o+=line; o+="\n"; }
   return o;
 }
+static std::string slurp(const std::string& p){ std::ifstream f(p.c_str(), std::ios::binary); std::ostringstream o; o<<f.rdbuf(); return o.str(); }
 
-static Res run_job(const Job& j){
-  Res r; int id = CreateIPhreeqc(); r.id = id;
+struct Nest { const Job* inner; Res* out; int count; int at; };
+static Res run_job(const Job& j, Nest* nest);
+static double basic_cb(double x1, double x2, const char* str, void* cookie){
+  Nest* n = (Nest*)cookie;
+  if(n && n->inner){ n->count++; if(n->count==n->at){ *n->out = run_job(*n->inner, 0); } }
+  return x1 + 2*x2;
+}
+
+static Res run_job(const Job& j, Nest* nest){
+  Res r; int ub0 = my_unbal; int id = CreateIPhreeqc(); r.id = id;
   if(id < 0) return r;
-  // user-set names so that no id-derived default file name can appear in any text
-  SetOutputFileName(id,"o.out"); SetErrorFileName(id,"e.out"); SetLogFileName(id,"l.out"); SetDumpFileName(id,"d.out");
-  SetOutputFileOn(id,0); SetErrorFileOn(id,0); SetLogFileOn(id,0); SetDumpFileOn(id,0); SetSelectedOutputFileOn(id,0);
+  static Nest none = {0,0,0,0};
+  bool defaults = j.has("defaults");
+  if(!defaults){
+    // user-set names so that no id-derived default file name can appear in any text
+    SetOutputFileName(id,"o.out"); SetErrorFileName(id,"e.out"); SetLogFileName(id,"l.out"); SetDumpFileName(id,"d.out");
+    SetOutputFileOn(id,0); SetErrorFileOn(id,0); SetLogFileOn(id,0); SetDumpFileOn(id,0); SetSelectedOutputFileOn(id,0);
+  } else {
+    SetOutputFileOn(id,1); SetErrorFileOn(id,1); SetLogFileOn(id,1); SetDumpFileOn(id,1);
+  }
   SetOutputStringOn(id,1); SetErrorStringOn(id,1); SetDumpStringOn(id,1);
-  int rc = LoadDatabase(id, j.db.c_str());
-  if(rc==0){
+  int rc = j.has("dbstring") ? LoadDatabaseString(id, j.db.c_str()) : LoadDatabase(id, j.db.c_str());
+  if(rc==0 && !j.has("loadonly")){
     SetSelectedOutputStringOn(id,1);
+    if(defaults) SetSelectedOutputFileOn(id,1);
+    SetBasicCallback(id, basic_cb, nest ? (void*)nest : (void*)&none);   // after the load: LoadDatabase forgets the callback
     rc = RunString(id, j.input.c_str());
-  } else rc += 1000;
+  } else if(rc!=0) rc += 1000;
   r.rc = rc;
   r.out = mask(GetOutputString(id)); r.err = mask(GetErrorString(id)); r.warn = mask(GetWarningString(id));
   r.dump = mask(GetDumpString(id));
   int n = GetSelectedOutputCount(id);
+  std::string selnames;
   for(int k=0;k<n;k++){
     int u = GetNthSelectedOutputUserNumber(id,k); SetCurrentSelectedOutputUserNumber(id,u);
     r.sel += "#"+std::to_string(u)+"\n";
+    selnames += (k?",":"") + std::to_string(u) + "=" + hx::hex(GetSelectedOutputFileName(id));
     int rows=GetSelectedOutputRowCount(id), cols=GetSelectedOutputColumnCount(id); r.rows += rows;
     for(int a=0;a<rows;a++){ for(int b=0;b<cols;b++){ VAR v; VarInit(&v); GetSelectedOutputValue(id,a,b,&v);
         if(v.type==TT_DOUBLE) r.sel += "D"+hx::hexd(v.dVal); else if(v.type==TT_LONG) r.sel += "L"+std::to_string(v.lVal);
@@ -54,34 +106,60 @@ static Res run_job(const Job& j){
     r.sel += mask(GetSelectedOutputString(id));
   }
   int nc = GetComponentCount(id); for(int k=0;k<nc;k++){ r.comp += GetComponent(id,k); r.comp += ","; }
-  DestroyIPhreeqc(id);
+  if(defaults){
+    std::string nm[4] = { GetOutputFileName(id), GetErrorFileName(id), GetLogFileName(id), GetDumpFileName(id) };
+    r.names = hx::hex(nm[0])+" "+hx::hex(nm[1])+" "+hx::hex(nm[2])+" "+hx::hex(nm[3])+" "+(selnames.empty()?"-":selnames);
+  }
+  DestroyIPhreeqc(id);            // closes the files
+  if(defaults){
+    // every regular file in the scratch directory whose name carries ".<id>." (files of other jobs carry other ids)
+    std::vector<std::string> fs; DIR* d = opendir("."); if(d){ while(dirent* e = readdir(d)){ std::string f=e->d_name;
+      if(f.find("."+std::to_string(id)+".")!=std::string::npos) fs.push_back(f); } closedir(d); }
+    std::sort(fs.begin(), fs.end()); std::string fl;
+    for(auto& f: fs){ fl += (fl.empty()?"":",") + hx::hex(f) + "=" + h16(fnv(mask(slurp(f).c_str()))); }
+    r.names += " " + (fl.empty()?std::string("-"):fl);
+  }
+  r.unbal = my_unbal - ub0;
   return r;
 }
 
 int main(int argc, char** argv){
   int nthreads = argc>1 ? atoi(argv[1]) : 1, coexist = argc>2 ? atoi(argv[2]) : 0, churn = argc>3 ? atoi(argv[3]) : 0;
+  int hold = argc>4 ? atoi(argv[4]) : (nthreads==0 ? 2 : 0);
   bool text = getenv("PH_TEXT") != 0;
   std::vector<Job> jobs; std::string line;
-  while(std::getline(std::cin,line)){ auto w=hx::words(line); if(w.size()==3 && w[0]=="J") jobs.push_back({hx::unhex(w[1]),hx::unhex(w[2])}); }
+  while(std::getline(std::cin,line)){ auto w=hx::words(line); if(w.size()>=3 && w[0]=="J") jobs.push_back({hx::unhex(w[1]),hx::unhex(w[2]), w.size()>3?w[3]:""}); }
   std::vector<int> idle; for(int i=0;i<coexist;i++) idle.push_back(CreateIPhreeqc());
   std::vector<Res> res(jobs.size());
-  std::vector<std::vector<int> > ids(nthreads);
+  std::vector<std::vector<int> > ids(std::max(1,nthreads));
   auto worker = [&](int t){
+    std::vector<int> kept;
     for(size_t k=t;k<jobs.size();k+=nthreads){
       for(int c=0;c<churn;c++){ int a=CreateIPhreeqc(); ids[t].push_back(a); GetOutputFileOn(a); int b=CreateIPhreeqc(); ids[t].push_back(b);
         DestroyIPhreeqc(a); GetErrorOn(b); DestroyIPhreeqc(b); DestroyIPhreeqc(a); }
-      res[k] = run_job(jobs[k]); ids[t].push_back(res[k].id);
+      if(hold>0){ // overlapping lifetimes: an instance with a loaded database stays alive while the next jobs run
+        int a=CreateIPhreeqc(); ids[t].push_back(a); if(!jobs[k].has("dbstring")) LoadDatabase(a, jobs[k].db.c_str()); kept.push_back(a);
+        if((int)kept.size()>hold){ DestroyIPhreeqc(kept.front()); kept.erase(kept.begin()); } }
+      res[k] = run_job(jobs[k], 0); ids[t].push_back(res[k].id);
     }
+    for(int a: kept) DestroyIPhreeqc(a);
   };
-  if(nthreads<=1) worker(0);
+  if(nthreads==0){
+    for(size_t k=0;k+1<jobs.size();k+=2){ Nest n = { &jobs[k+1], &res[k+1], 0, hold };
+      res[k] = run_job(jobs[k], &n); ids[0].push_back(res[k].id); ids[0].push_back(res[k+1].id);
+      if(res[k+1].id<0) std::cout<<"NOTNESTED "<<k<<"\n"; }
+  }
+  else if(nthreads==1) worker(0);
   else { std::vector<std::thread> th; for(int t=0;t<nthreads;t++) th.emplace_back(worker,t); for(auto& x: th) x.join(); }
   for(size_t k=0;k<jobs.size();k++){ const Res& r=res[k];
     std::cout<<"R "<<k<<" "<<r.id<<" "<<r.rc<<" "<<h16(fnv(r.out))<<" "<<h16(fnv(r.sel))<<" "<<h16(fnv(r.err))<<" "<<h16(fnv(r.warn))<<" "
-             <<h16(fnv(r.dump))<<" "<<h16(fnv(r.comp))<<" "<<r.rows<<"\n";
+             <<h16(fnv(r.dump))<<" "<<h16(fnv(r.comp))<<" "<<r.rows<<" "<<r.unbal<<"\n";
+    if(!r.names.empty()) std::cout<<"F "<<k<<" "<<r.id<<" "<<r.names<<"\n";
     if(text){ std::cout<<"T "<<k<<" out "<<hx::hex(r.out)<<"\nT "<<k<<" sel "<<hx::hex(r.sel)<<"\nT "<<k<<" err "<<hx::hex(r.err)<<"\nT "<<k<<" warn "<<hx::hex(r.warn)
              <<"\nT "<<k<<" dump "<<hx::hex(r.dump)<<"\nT "<<k<<" comp "<<hx::hex(r.comp)<<"\n"; }
   }
   std::cout<<"IDS"; for(int x: idle) std::cout<<" "<<x; for(auto& v: ids) for(int x: v) std::cout<<" "<<x; std::cout<<"\n";
+  std::cout<<"LOCKBAL "<<unbal_q.load()<<" "<<unbal_m.load()<<"\n";
   for(int x: idle) DestroyIPhreeqc(x);
   return 0;
 }
